@@ -38,6 +38,15 @@ def tcp_peer(a):
     return None
 
 
+FACADE_API = {"fdial": "dial", "fdialaddr": "dialaddr"}
+
+
+def base_op(op):
+    """`fdial`/`fdialaddr` (Litep2p::dial / dial_address) are the manager's dial / dial_address."""
+    head, _, rest = op.partition(" ")
+    return FACADE_API[head] + " " + rest if head in FACADE_API else op
+
+
 def parse_obs(line):
     """-> dict or None for panic/skipped/bad-op/ok(limits)."""
     if line is None or line.startswith("panic") or line in ("skipped", "bad-op", "ok", "case") or " ; " not in line:
@@ -74,6 +83,13 @@ def parse_obs(line):
             o["events"].append({"k": "dialfail", "conn": f[1], "addr": f[2], "err": f[3]})
         elif f[0] == "openfail":
             o["events"].append({"k": "openfail", "conn": f[1], "addrs": [x.split("=")[0] for x in f[2].split("|") if x]})
+        elif f[0] == "udialfail":
+            # facade level (Litep2pEvent::DialFailure): no connection id
+            o["events"].append({"k": "udialfail", "addr": f[1], "err": f[2] if len(f) > 2 else "?"})
+        elif f[0] == "ulist":
+            # facade level (Litep2pEvent::ListDialFailures): no connection id, possibly an empty list
+            items = [x for x in (f[1] if len(f) > 1 else "").split("|") if x]
+            o["events"].append({"k": "ulist", "addrs": [x.split("=")[0] for x in items], "items": items})
         else:
             o["events"].append({"k": "other"})
     for s in st[len("st="):].split():
@@ -106,10 +122,12 @@ class Ghost:
         self.acceptfail = False
         self.prev = None      # previous parsed observation
         self.clash = False    # a label was bound twice (duplicated `as=` line): identities are ambiguous
+        self.facade_done = [] # facade level: failure reports already attributed to an attempt
 
     # -- contract (Model/Manager/Dial.lean `allowed`)
     def allowed(self, t):
-        if t[0] in ("addknown", "dial", "dialaddr", "limits", "protocols", "pdial", "pdialaddr", "pfill", "pdrain"):
+        if t[0] in ("addknown", "dial", "dialaddr", "limits", "protocols", "pdial", "pdialaddr", "pfill", "pdrain",
+                    "fdial", "fdialaddr", "fnext", "facade"):
             return True
         if t[0] == "accepted":
             return t[2] == "ok" and self.owed.get(t[1], {}).get("phase") == "accept"
@@ -143,7 +161,7 @@ class Ghost:
 
     def update(self, step, op, obs):
         """Apply one operation and its parsed observation (None = panic etc.)."""
-        t = op.split()
+        t = base_op(op).split()
         if self.contract and not self.allowed(t):
             self.contract, self.broken_at = False, step
         if obs is None:
@@ -155,7 +173,7 @@ class Ghost:
                 if (ev["k"] == "est" and ev["conn"] == a["carrier"]) or \
                         (ev["k"] in ("dialfail", "openfail") and ev["conn"] == a["conn"]):
                     a["reports"].append((step, ev["k"]))
-        if t[0] in ("dial", "dialaddr", "pdial", "pdialaddr", "pdrain", "pfill"):
+        if t[0] in ("dial", "dialaddr", "pdial", "pdialaddr", "pdrain", "pfill", "fnext"):
             # attempts started by the call itself or by queued commands the manager got to in this step
             for kind, c, addrs in calls:
                 if kind in ("open", "dial") and c in self.used:
@@ -250,7 +268,20 @@ class Session:
             self.p.kill()
 
 
-def gen_case(rng, sess, n_ops, npeers=3, chaos=0.0, limits=None, protocols=None):
+def openfail_errs(rng, addrs):
+    """Error list of an OpenFailure: one error per address (every attempt failed), a subset (the overall
+    dial deadline fired while some attempts were outstanding) or none at all (deadline, all outstanding)."""
+    r = rng.random()
+    if r < 0.6:
+        errs = list(addrs)
+    elif r < 0.8:
+        errs = [x for x in addrs if rng.random() < 0.5]
+    else:
+        errs = []
+    return ",".join(f"{x}={rng.choice('tta')}" for x in errs)
+
+
+def gen_case(rng, sess, n_ops, npeers=3, chaos=0.0, limits=None, protocols=None, facade=False):
     """One history. Events are chosen among those a contract-abiding environment can produce in the
     current (observed) situation; with probability `chaos` per step an arbitrary event instead.
     `protocols=(n, cap)`: n protocols with event channels of capacity cap are installed; they dial
@@ -264,6 +295,11 @@ def gen_case(rng, sess, n_ops, npeers=3, chaos=0.0, limits=None, protocols=None)
     nlabel = [0]
     peers = list(range(1, npeers + 1))
     np_ = 0
+    dial_op, dialaddr_op = ("fdial", "fdialaddr") if facade else ("dial", "dialaddr")
+    if facade:
+        # facade level: everything is polled through Litep2p::next_event from here on
+        ops.append("facade")
+        sess.send("facade")
     if protocols:
         np_ = protocols[0]
         ops.append(f"protocols {protocols[0]} cap={protocols[1]}")
@@ -282,8 +318,10 @@ def gen_case(rng, sess, n_ops, npeers=3, chaos=0.0, limits=None, protocols=None)
         p = rng.choice(peers)
         # API calls
         cands.append((6 if protocols else 3, lambda p=p: f"addknown {p} " + ",".join(rng.sample([addr(p, 0), addr(p, 1), addr(p, 2)], rng.choice([1, 1, 2])))))
-        cands.append((4, lambda p=p: f"dial {p} as={new_label()}"))
-        cands.append((4, lambda p=p: f"dialaddr {addr(p, rng.randrange(3))} as={new_label()}"))
+        cands.append((4, lambda p=p: f"{dial_op} {p} as={new_label()}"))
+        cands.append((4, lambda p=p: f"{dialaddr_op} {addr(p, rng.randrange(3))} as={new_label()}"))
+        if facade:
+            cands.append((1, lambda: "fnext"))
         # inbound sockets
         cands.append((1, lambda: f"ev pendingin {new_label()}"))
         cands.append((3, lambda p=p: f"ev established {p} {rng.choice(sorted(g.fresh)) if g.fresh and rng.random() < 0.7 else new_label()} "
@@ -297,7 +335,7 @@ def gen_case(rng, sess, n_ops, npeers=3, chaos=0.0, limits=None, protocols=None)
                     tail = (" errs=" + ",".join(f"{x}={rng.choice('tta')}" for x in errs)) if errs else ""
                     return f"ev opened {c} {a}{tail}"
                 cands.append((6, opened))
-                cands.append((4, lambda c=c, addrs=addrs: f"ev openfail {c} errs=" + ",".join(f"{x}={rng.choice('tta')}" for x in addrs)))
+                cands.append((4, lambda c=c, addrs=addrs: f"ev openfail {c} errs=" + openfail_errs(rng, addrs)))
             elif o["phase"] == "dial":
                 a = (o["addrs"] or ["-"])[0]
                 cands.append((6, lambda c=c, o=o, a=a: f"ev established {o['peer']} {c} {a} dialer" + (" acceptfail" if rng.random() < 0.03 else "")))
@@ -432,7 +470,7 @@ def gen_addr_case(rng, sess, n_ops):
 PROTO_LIMITS = [("none", "0"), ("0", "0"), ("none", "1"), ("1", "1"), ("2", "1")]
 
 
-def gen_cases(rng, tier, share_addr=0.15, share_proto=0.0):
+def gen_cases(rng, tier, share_addr=0.15, share_proto=0.0, share_facade=0.0):
     n = {"quick": 1000, "thorough": 50000, "search": 4000}[tier]
     sess = Session()
     try:
@@ -446,8 +484,9 @@ def gen_cases(rng, tier, share_addr=0.15, share_proto=0.0):
                     protocols = (rng.choice([1, 1, 2, 2, 3]), rng.choice([1, 1, 2, 3]))
                     chaos = rng.choice([0, 0, 0, 0.05])
                 limits = rng.choice(PROTO_LIMITS) if protocols and rng.random() < 0.5 else None
+                facade = share_facade > 0 and rng.random() < share_facade
                 yield gen_case(rng, sess, rng.choice([6, 10, 16, 25, 25]), npeers=rng.choice([2, 3]), chaos=chaos,
-                               limits=limits, protocols=protocols)
+                               limits=limits, protocols=protocols, facade=facade)
     finally:
         sess.close()
 
@@ -472,12 +511,12 @@ def model_lines(case, impl_out):
         o = impl_out[i] if impl_out and i < len(impl_out) and impl_out[i] else ""
         if " -> " in op:
             res.append(op)
-        elif op.startswith("dial ") and "calls=open:" in o:
+        elif (op.startswith("dial ") or op.startswith("fdial ")) and "calls=open:" in o:
             res.append(op + " -> " + o)
         elif op.startswith("protocols ") and o.startswith("ok order="):
             # the order in which the manager walks over its protocols is the hash map's
             res.append(op + " -> " + o)
-        elif op.split(" ", 1)[0] in ("pdial", "pdialaddr", "pfill", "pdrain") and "open:" in o:
+        elif op.split(" ", 1)[0] in ("pdial", "pdialaddr", "pfill", "pdrain", "fnext") and "open:" in o:
             # queued DialPeer commands the manager got to in this step: the address store's answers
             res.append(op + " -> " + o)
         else:
@@ -503,8 +542,11 @@ def stats(case, out, acc):
             if t[0] == "pdrain" and ob["res"] != "got=-":
                 for e in ob["res"][4:].split(","):
                     bump(acc, "protocol-got:" + e.split(":")[0])
-            if t[0] in ("dial", "dialaddr"):
+            if t[0] in ("dial", "dialaddr", "fdial", "fdialaddr"):
                 bump(acc, f"{t[0]}:{ob['res']}" + ("+attempt" if ob["calls"] else ""))
+            if t[0] == "ev" and t[1] == "openfail":
+                n = len([x for x in next((a[5:] for a in t if a.startswith("errs=")), "").split(",") if x])
+                bump(acc, "openfail-errors:" + ("0" if n == 0 else "1" if n == 1 else "several"))
             for c in ob["calls"]:
                 bump(acc, "call:" + c[0])
             for e in ob["events"]:
